@@ -46,6 +46,29 @@ Definition from_range (n : Z) (lo hi : Q) : list Z :=
 Definition range_state (a : axis) (k : kind) (lo hi : Q) : state :=
   match k with KCat n => SCat a (from_range n lo hi) | KNum => SRange a lo hi end.
 
+(* ---------- the label level of from_range / CategoricalROI.contains ----------
+   A label is identified with its rank in ascending label order; `cats` = the component's categories in plot order (any order,
+   no repetition), so the plotted position of label nth k cats is k. *)
+(* categories[lo:hi] with lo, hi the clamped ceilings (a Python slice: indices lo <= i < hi, clipped to the length) *)
+Definition slice_cats (cats : list Z) (lo hi : Q) : list Z :=
+  skipn (Z.to_nat (clamp_ceil lo)) (firstn (Z.to_nat (clamp_ceil hi)) cats).
+(* update_categories: np.unique = ascending, without repetition *)
+Fixpoint zinsert_uniq (x : Z) (l : list Z) : list Z :=
+  match l with
+  | [] => [x]
+  | y :: t => if (x <? y)%Z then x :: l else if (x =? y)%Z then l else y :: zinsert_uniq x t
+  end.
+Definition zunique (l : list Z) : list Z := fold_right zinsert_uniq [] l.
+Definition stored_from_range (cats : list Z) (lo hi : Q) : list Z := zunique (slice_cats cats lo hi).
+(* np.searchsorted(stored, x) on ascending stored categories: the number of stored labels below x *)
+Definition searchsorted (stored : list Z) (x : Z) : nat := length (filter (fun y => (y <? x)%Z) stored).
+(* CategoricalROI.contains: stored[min(searchsorted(stored, x), len - 1)] == x ; empty -> False *)
+Definition cat_contains_ss (stored : list Z) (x : Z) : bool :=
+  match stored with
+  | [] => false
+  | _ => (nth (Nat.min (searchsorted stored x) (length stored - 1)) stored 0 =? x)%Z
+  end.
+
 (* ---------- polygon_line_intersections(px, py, xval = k) ---------- *)
 Definition swap (p : pt) : pt := (snd p, fst p).
 (* "make sure that the polygon is closed" *)
@@ -209,7 +232,8 @@ Fixpoint enc_state (s : state) : tree :=
   end.
 
 (* (1 eps roi xkind ykind (0 elems...)) -> (0 state (0 sem bits) (0 contains bits) (0 near bits)) ;
-   (2 n lo hi) -> codes of from_range ; (3 (0 vertices) k) -> segments *)
+   (2 n lo hi) -> codes of from_range ; (3 (0 vertices) k) -> segments ;
+   (4 (0 category ranks in plot order) lo hi (0 queried ranks)) -> (0 stored categories, contains bits) *)
 Definition run_case (t : tree) : tree :=
   match t with
   | T 1 [eps; r; xk; yk; T _ es] =>
@@ -222,6 +246,9 @@ Definition run_case (t : tree) : tree :=
       T 0 [enc_state st; bools (map sm els); bools (map (roi_contains r9) els); bools (map (roi_near (dec_q eps) r9) els)]
     end
   | T 2 [T n _; lo; hi] => zs (from_range n (dec_q lo) (dec_q hi))
+  | T 4 [cats; lo; hi; xs] =>
+    let st := stored_from_range (to_zs cats) (dec_q lo) (dec_q hi) in
+    T 0 [zs st; bools (map (cat_contains_ss st) (to_zs xs))]
   | T 3 [T _ vs; k] => T 0 (map (fun s => T 0 [enc_q (fst s); enc_q (snd s)]) (segments (map dec_pt vs) (dec_q k)))
   | _ => err 2
   end.
